@@ -111,7 +111,7 @@ func (s *Solver) roundTrip() []string {
 		s.log.WriteString(txt)
 	}
 	if s.dead {
-		return []string{"(error \"solver process is dead: " + s.lastErr + "\")"}
+		return []string{"(error \"solver process is dead\")"}
 	}
 	if _, err := io.WriteString(s.in, txt); err != nil {
 		s.dead = true
